@@ -75,6 +75,10 @@ PROFILE = gen.profile(
     p_ctx_sync=0.15,
     ctxs=["actx", "ov", "attr"],
     max_instances=80,
+    # also task functions that are not function objects (functools.partial, an instance with __call__): names
+    # and dumps are built from what the library can find out about the callable
+    styles=["asynq", "asynq", "asynq", "pure", "method", "classmethod", "staticmethod", "proxy", "partial"],
+    plain_styles=["plain", "plain", "pureplain", "callable"],
 )
 PRIO = ("kindonly", [5, 9, -3])
 ELAPSED = [1, 7, 1000, 10**6, 6 * 10**7, 2_200_000_000, 3 * 3600 * 10**6]
